@@ -327,6 +327,18 @@ class ExprMixin:
             return Opaque("strformat")
         if isinstance(op, ast.BitOr) and isinstance(a, Cell) and a.kind == "set":
             return self.set_union(a, b)
+        if isinstance(op, (ast.Sub, ast.BitAnd)) and isinstance(a, Cell) and a.kind == "set" and isinstance(b, Cell) and b.kind == "set":
+            if a.sym is None and b.sym is None:
+                return Cell("set", conc=(set(a.conc) - set(b.conc)) if isinstance(op, ast.Sub) else (set(a.conc) & set(b.conc)), fresh=True)
+            ty = ctx.type_of(a) or ctx.type_of(b)
+            if ty is None:
+                raise Unsupported("set difference untyped")
+            x, y = ctx.term(a, ty), ctx.term(b, ty)
+            k = z3.Const(ctx.fresh_name("k"), sort_of(ty.args[0]))
+            r = z3.Const(ctx.fresh_name("sd"), sort_of(ty))
+            body = z3.And(z3.Select(x, k), z3.Not(z3.Select(y, k))) if isinstance(op, ast.Sub) else z3.And(z3.Select(x, k), z3.Select(y, k))
+            ctx.assume(z3.ForAll([k], z3.Select(r, k) == body))
+            return Cell("set", sym=SV(ty, r), fresh=True)
         ta, tb = ctx.type_of(a), ctx.type_of(b)
         for v, t in ((a, ta), (b, tb)):
             if t is not None and t.name == "Opt":
